@@ -65,7 +65,7 @@ def summarize_accounting(row, counter_attr, stats_attr):
     writes, updates = [], []
     other_counter = []
     for e in row.effects:
-        kind, tgt, val, ln, lp = e
+        kind, tgt, val, ln, lp = e[:5]
         many = 2 if lp else 1
         if kind == "aug" and counter_attr and tgt == counter_attr:
             if val == "+1":
